@@ -27,6 +27,7 @@ import (
 
 func init() {
 	verifKinds["c20.hist"] = verifC20Hist
+	verifKinds["c20.pair"] = verifC20Pair
 	verifKinds["c20.enum"] = verifC20Enum
 	verifKinds["c20.names"] = verifC20Names
 }
@@ -135,6 +136,23 @@ func verifC20Hist(args []vsx) vsx {
 		return vL(vS("bad-case"))
 	}
 	return verifHistRun(enc, comp, decomp, args[2].l)
+}
+
+// args: enc ctor (opsA) (opsB) (schedule) - two compressors and two decompressors from the same constructor
+// (ctor as for c20.hist), their histories interleaved (verifPairRun)
+func verifC20Pair(args []vsx) vsx {
+	if len(args) != 5 {
+		return vL(vS("bad-case"))
+	}
+	enc, ctor := args[0].i, args[1].i
+	if enc < 1 || enc > 6 {
+		return vL(vS("bad-case"))
+	}
+	return verifPairRun(enc, func() (connect.Compressor, connect.Decompressor, bool) {
+		comp, ok1 := verifNewComp(enc, ctor)
+		decomp, ok2 := verifNewDecomp(enc, ctor)
+		return comp, decomp, ok1 && ok2
+	}, args[2].l, args[3].l, args[4].l)
 }
 
 // ---------------------------------------------------------------------------
